@@ -347,6 +347,10 @@ func TestC13_Migrate(t *testing.T) {
 				if got.DataLimit != want.DataLimit || got.Queued != want.Queued || got.Received != want.Received {
 					mfail(t, log, "C08/limit-or-progress-changed-by-upgrade", "record %d: limit %d queued %d received %d after the store upgrade, was limit %d queued %d received %d", i, got.DataLimit, got.Queued, got.Received, want.DataLimit, want.Queued, want.Received)
 				}
+			case "C07":
+				if got.Queued != want.Queued || got.Sent != want.Sent || got.Received != want.Received || got.QueuedIdx != want.QueuedIdx || got.SentIdx != want.SentIdx || got.ReceivedIdx != want.ReceivedIdx {
+					mfail(t, log, "C07/totals-changed-by-upgrade", "record %d: byte totals / block indexes differ after the store upgrade:\n got  %s\n want %s", i, got.Core(), want.Core())
+				}
 			case "C10":
 				if got.Queued != want.Queued || got.Sent != want.Sent || got.Received != want.Received || got.QueuedIdx != want.QueuedIdx || got.SentIdx != want.SentIdx || got.ReceivedIdx != want.ReceivedIdx || got.Voucher != want.Voucher {
 					mfail(t, log, "C10/progress-changed-by-upgrade", "record %d: recorded progress or opening voucher differ after the store upgrade:\n got  %s\n want %s", i, got.Core(), want.Core())
@@ -467,7 +471,7 @@ func TestC13_Migrate(t *testing.T) {
 			if n > 0 {
 				stats.For("C19").Nontrivial(stats.FP("upgrade", fmt.Sprint(statuses), n))
 			}
-		case p == "C06" || p == "C08" || p == "C09" || p == "C10" || p == "C11":
+		case p == "C06" || p == "C07" || p == "C08" || p == "C09" || p == "C10" || p == "C11":
 			stats.For(p).Eval()
 			stats.For(p).Class("through_store_upgrade")
 			if n > 0 {
